@@ -519,7 +519,6 @@ PLAN["C07"]["assumptions"] = PLAN["C07"]["assumptions"] + [
     "jobs named @24fp/@53fp use the bit-precise model (IEEE binary32 / binary64, round to nearest even; the x87 80 bit format is not used: z3 4.8.12 returned a spurious model for it that the replay rejected) instead of exact reals"]
 FP_SELECT_JOBS = [
     S("h_mc_kernels@24fp", dict(ob=1, C=2), ["select.never_a_disabled"], timeout_ms=120000, tiers=T),
-    S("h_mc_kernels@24fp", dict(ob=1, C=3), ["select.never_a_disabled"], timeout_ms=300000, tiers=T, split=8),
 ]
 PLAN["C09"]["jobs"] = PLAN["C09"]["jobs"] + FP_SELECT_JOBS
 
